@@ -72,6 +72,24 @@ def rule_once(ctx, res):
               'the store is not guarded by a membership test on the same '
               'key: a package required twice is loaded twice',
               f.module.loc(st))
+    # the key is the required name and nothing else: a key that also depends
+    # on another value (an option, the requiring file) enters one name twice
+    from .c12 import _views_of_walker_string, pure_aliases
+    names = _views_of_walker_string(model, f)
+    seeds = {v for v in names if not assignments_to(f.node, v) or
+             all(val is None for (_s, val) in assignments_to(f.node, v))}
+    pure = set()
+    for sd in (seeds or names):
+        pure |= pure_aliases(f.node, sd)
+    key_ok = isinstance(key, ast.Name) and (key.id in pure or
+                                             key.id in names)
+    res.check(key_ok, 'R-C14-once', q, 'table key is the required name',
+              'key {} is the string yielded by the require walker'.format(
+                  unparse(key, 30)),
+              'the table key ({}) is not the required name alone: two '
+              'require() calls of one name can get different keys, and the '
+              'loader table then defines that name twice'.format(
+                  unparse(key, 50)), f.module.loc(st))
     rec = []
     for n in model.own_nodes(f.node):
         if isinstance(n, ast.Call):
@@ -113,10 +131,29 @@ def rule_once(ctx, res):
                 isinstance(c.func, ast.Attribute) and c.func.attr == 'append'
                 and c.args and const_str(c.args[0]) == b'end\n']
         ok = len(defs) == 1 and len(ends) == 1
+        # the emitted name is the whole key (escaped), not a projection of it
+        tg = lp.target
+        kname = tg.elts[0].id if (isinstance(tg, ast.Tuple) and
+                                  len(tg.elts) == 2 and
+                                  isinstance(tg.elts[0], ast.Name)) else None
+        if kname is None:
+            ok = False
+        elif defs:
+            used = {x.id for x in walk_own(defs[0]) if isinstance(x, ast.Name)}
+            derived = {kname}
+            for nm in used:
+                for (_s2, v2) in assignments_to(g.node, nm):
+                    if v2 is not None and any(
+                            isinstance(x, ast.Name) and x.id == kname
+                            for x in walk_own(v2)):
+                        derived.add(nm)
+            ok = ok and bool(used & derived)
     res.check(ok, 'R-C14-once', q2, 'one loader entry per table key',
               'single pass over table.items(), one package._c[...] '
-              'definition and one closing end per package',
-              'loader emission changed', g.loc)
+              'definition named by the whole key and one closing end per '
+              'package',
+              'loader emission changed: not exactly one definition per table '
+              'entry named by the entry\'s whole key', g.loc)
     res.require_min('R-C14-once', 5)
 
 
